@@ -3,16 +3,17 @@
 
 extern "C" void __sanitizer_set_death_callback(void (*)(void)) __attribute__((weak));
 
+#include <atomic>
 #include "inc/Verif.h"
 
 namespace grv {
 
-long g_passes = 0, g_iter_worst_permille = 0;
+std::atomic<long> g_passes(0), g_iter_worst_permille(0);
 static void iter_sink(int ev, long a, long b, long c, long d) {
     if (ev != 1) return;
-    ++g_passes;
+    g_passes.fetch_add(1, std::memory_order_relaxed);
     const long bound = d * (b + c + 2);
-    if (bound > 0) { long pm = a * 1000 / bound; if (pm > g_iter_worst_permille) g_iter_worst_permille = pm; }
+    if (bound > 0) { long pm = a * 1000 / bound; long cur = g_iter_worst_permille.load(std::memory_order_relaxed); while (pm > cur && !g_iter_worst_permille.compare_exchange_weak(cur, pm)) {} }
     if (a > bound) {
         vj::W w; w.i("iterations", a).i("slots_at_start", b).i("insert_budget", c).i("max_rule_loop", d).str("case", g_case);
         report_fail("C02", "rule loop of a pass ran more iterations than maxRuleLoop x (slots + insert budget + 2)", w.done());
@@ -58,7 +59,7 @@ void report_fail(const char *prop, const std::string &why, const std::string &ca
     }
 }
 void report_summary(const char *extra) {
-    vj::W w; w.i("summary", 1).i("cases", g_cases).i("fail", g_fail).i("drift", g_drift).i("passes_counted", g_passes).i("worst_iter_permille_of_bound", g_iter_worst_permille);
+    vj::W w; w.i("summary", 1).i("cases", g_cases).i("fail", g_fail).i("drift", g_drift).i("passes_counted", g_passes.load()).i("worst_iter_permille_of_bound", g_iter_worst_permille.load());
     if (extra) w.raw("extra", extra);
     puts(w.done().c_str());
     fflush(stdout);
